@@ -191,6 +191,22 @@ impl Inst {
         }
     }
 
+    /// Raw response text of a request (no parsing); `None` if the handler panicked.
+    pub fn call_raw(&mut self, method: &str, params: &Value) -> Option<String> {
+        self.uses += 1;
+        let req = format!(r#"{{"jsonrpc":"2.0","id":1,"method":"{}","params":{}}}"#, method, params);
+        let methods = self.methods.as_ref().expect("instance closed");
+        let r = catch_unwind(AssertUnwindSafe(|| RT.with(|rt| rt.block_on(methods.raw_json_request(&req, 1)))));
+        match r {
+            Ok(Ok((resp, _))) => Some(resp.get().to_string()),
+            Ok(Err(e)) => Some(format!("parse error: {}", e)),
+            Err(_) => {
+                self.broken = true;
+                None
+            }
+        }
+    }
+
     pub fn call(&mut self, method: &str, params: Value) -> CallOutcome {
         let req = json!({"jsonrpc": "2.0", "id": 1, "method": method, "params": params}).to_string();
         self.call_text(&req)
